@@ -460,6 +460,12 @@ fn read_level(
         if let Some(p) = &pending {
             let n = lv.occs[p.occ].raw.len();
             let pa = c.args.iter().chain(globals.iter()).find(|a| a.id == lv.occs[p.occ].id);
+            // value_terminator: the sentinel ends this argument's values and is itself consumed
+            if pa.and_then(|a| a.terminator.as_ref()).map(|term| term.as_bytes() == t.as_slice()).unwrap_or(false) {
+                close_pending!();
+                i += 1;
+                continue;
+            }
             let hyphen_ok = pa.map(|a| a.allow_hyphen_values || (a.allow_negative_numbers && number_shaped(t))).unwrap_or(false);
             if hyphen_ok && n < p.max && (flag_shaped(t) || t == b"--") {
                 // "prior arguments with allow_hyphen_values get precedence over known flags"
@@ -492,6 +498,12 @@ fn read_level(
         if let Some(o) = pos_run {
             let pa = c.arg(&lv.occs[o].id);
             if let Some(pa) = pa {
+                if pa.trailing_var_arg {
+                    // once started, everything that follows belongs to it "as if `--` had been used"
+                    lv.occs[o].raw.push(t.clone());
+                    i += 1;
+                    continue;
+                }
                 if (flag_shaped(t) || t == b"--") && (pa.allow_hyphen_values || (pa.allow_negative_numbers && number_shaped(t) && t != b"--")) {
                     if pa.allow_negative_numbers && !pa.allow_hyphen_values {
                         // a digit may also be a defined short flag: not pinned
@@ -804,6 +816,16 @@ fn place_positional(
     };
     if a.last && !trailing {
         broken.insert(Rule::Unknown);
+        return;
+    }
+    if a.terminator.as_ref().map(|term| term.as_bytes() == t).unwrap_or(false) {
+        // value_terminator: the sentinel ends the multi-value positional (and is consumed); later
+        // values go to the next positional. Before any value, or after `--`, nothing is documented.
+        if trailing || !lv.occs.iter().any(|o| o.id == a.id) {
+            *unspec = Some("value terminator before the positional's first value or after `--`");
+        }
+        *pos_i += 1;
+        *pos_run = None;
         return;
     }
     if is_multi(a) {
